@@ -65,10 +65,10 @@ Qed.
 
 (* with the repair the listing of a DirHandler directory never fails *)
 Lemma dir_listing_total fx alts w enum :
-  fx_skip_child fx = true -> exists l, dir_listing fx alts w enum = Ok l.
+  fx_skip_child fx = true -> fx_skip_unreadable fx = true -> exists l, dir_listing fx alts w enum = Ok l.
 Proof.
-  intros F. unfold dir_listing. rewrite F. apply prep_entries_total.
-  intros n e _. apply dir_child_raises_notfound.
+  intros F G. unfold dir_listing. apply prep_entries_total.
+  intros n e _ C. apply (skip_of_survives fx e F G). now apply (dir_child_raises_notfound w n).
 Qed.
 
 (* ================= hidden entries stay retrievable ================= *)
@@ -272,7 +272,7 @@ Section UMNFacts.
       + destruct n as [|c n']; [discriminate|].
         destruct (is_dot (c :: n')) eqn:Dt; simpl.
         * destruct (fx_dot_safe fx).
-          -- destruct (w_stat w (c :: n')) as [[| | |]|]; try (now apply IH in H).
+          -- destruct (w_stat w (c :: n')) as [[| | | |]|]; try (now apply IH in H).
              destruct (w_text w (c :: n')) as [t|]; [|now apply IH in H].
              destruct (plf None t) as [l1|]; simpl in H; [|discriminate]. now apply IH in H.
           -- destruct (w_isdir w (c :: n')); [now apply IH in H|].
@@ -281,7 +281,7 @@ Section UMNFacts.
                          | None => Raise IOErr end = Ok (f, ls) -> f = files ++ filter (visible_umn alts w) r).
              { destruct (w_text w (c :: n')) as [t|]; [|discriminate].
                destruct (plf None t) as [l1|]; simpl; [|discriminate]. intros H'. now apply IH in H'. }
-             destruct (w_stat w (c :: n')) as [[| | |]|]; try discriminate; now apply T.
+             destruct (w_stat w (c :: n')) as [[| | | |]|]; try discriminate; now apply T.
         * apply IH in H. rewrite H, <- app_assoc. reflexivity.
   Qed.
 
@@ -302,7 +302,7 @@ Section UMNFacts.
     exists links fes,
       umn_scan plf fx alts w (enum_order fx enum) [] [] =
         Ok (filter (visible_umn alts w) (enum_order fx enum), links) /\
-      prep_entries (fx_skip_child fx) (umn_child plf mode w)
+      prep_entries (skip_of fx) (umn_child plf mode w)
         (sort_names (filter (visible_umn alts w) (enum_order fx enum))) = Ok fes /\
       Permutation (dir_names l)
         (filter (fun n => visible_umn alts w n && umn_listed n &&
@@ -498,7 +498,7 @@ Proof.
 Qed.
 
 (* ================= D25: hidden by its .cap file, yet listed through a ./ block ================= *)
-Definition head_before_d25 : fixes := mkFixes true true true true true true false.
+Definition head_before_d25 : fixes := mkFixes true true true true true true false false.
 Definition d25_world : world :=
   mkWorld (lit "/d"%string)
     (fun n => Some KFile)
@@ -520,3 +520,26 @@ Lemma cap_hidden_repaired :
   exists l, umn_listing repaired shipped_ignore StripNone d25_world d25_enum = Ok l /\
             map (fun oe => (fst oe, e_selector (snd oe))) l = [(Some (lit "a.txt"%string), lit "/d/a.txt"%string)].
 Proof. eexists. split; vm_compute; reflexivity. Qed.
+
+(* ================= the shipped ignore pattern still hides what it is documented to hide ================= *)
+(* The alternatives of the documented pattern (conf/pygopherd.conf as pinned).  Gen/Ignore.v is
+   regenerated from the conf file of the tree under test, exactly as ConfigParser reads it; every
+   documented alternative must still have its effect. *)
+Definition documented_ignore : list alt := [([ALit 47; AAny; ALit 99; ALit 97; ALit 112], true); ([ALit 47; ALit 108; ALit 111; ALit 115; ALit 116; ALit 43; ALit 102; ALit 111; ALit 117; ALit 110; ALit 100], true); ([ALit 47; ALit 108; ALit 105; ALit 98], true); ([ALit 47; ALit 98; ALit 105; ALit 110], true); ([ALit 47; ALit 101; ALit 116; ALit 99], true); ([ALit 47; ALit 100; ALit 101; ALit 118], true); ([ALit 126], true); ([ALit 47; ALit 46; ALit 99; ALit 97; ALit 99; ALit 104; ALit 101], false); ([ALit 47; ALit 46; ALit 102; ALit 111; ALit 114; ALit 119; ALit 97; ALit 114; ALit 100], true); ([ALit 47; ALit 46; ALit 109; ALit 101; ALit 115; ALit 115; ALit 97; ALit 103; ALit 101], true); ([ALit 47; ALit 46; ALit 104; ALit 117; ALit 115; ALit 104; ALit 108; ALit 111; ALit 103; ALit 105; ALit 110], true); ([ALit 47; ALit 46; ALit 107; ALit 101; ALit 114; ALit 109; ALit 114; ALit 99], true); ([ALit 47; ALit 46; ALit 110; ALit 111; ALit 116; ALit 97; ALit 114], true); ([ALit 47; ALit 46; ALit 119; ALit 104; ALit 101; ALit 114; ALit 101], true); ([ALit 47; ALit 118; ALit 101; ALit 114; ALit 111; ALit 110; ALit 105; ALit 99; ALit 97; AAny; ALit 99; ALit 116; ALit 108], true); ([ALit 47; ALit 114; ALit 111; ALit 98; ALit 111; ALit 116; ALit 115; AAny; ALit 116; ALit 120; ALit 116], true); ([ALit 47; ALit 110; ALit 111; ALit 104; ALit 117; ALit 112; AAny; ALit 111; ALit 117; ALit 116], true); ([ALit 47; ALit 103; ALit 111; ALit 112; ALit 104; ALit 101; ALit 114; ALit 109; ALit 97; ALit 112], true); ([ALit 46; ALit 97; ALit 98; ALit 115; ALit 116; ALit 114; ALit 97; ALit 99; ALit 116], true); ([ALit 46; ALit 107; ALit 101; ALit 121; ALit 98; ALit 111; ALit 97; ALit 114; ALit 100; ALit 115], true); ([ALit 46; ALit 97; ALit 115; ALit 107], false); ([ALit 46; ALit 51; ALit 100], true); ([ALit 126], true)].
+Definition atom_char (a : atom) : N := match a with ALit c => c | AAny => 120 end.
+(* a selector below /d that the alternative is meant to hide *)
+Definition alt_witness (a : alt) : str :=
+  match fst a with
+  | ALit 47 :: _ => lit "/d"%string ++ map atom_char (fst a)
+  | _ => lit "/d/a"%string ++ map atom_char (fst a)
+  end.
+
+Lemma shipped_hides_documented :
+  forallb (fun a => re_search shipped_ignore (alt_witness a)) documented_ignore = true.
+Proof. vm_compute. reflexivity. Qed.
+
+Lemma shipped_keeps_plain_names :
+  forallb (fun n => negb (re_search shipped_ignore (lit "/d/"%string ++ n)))
+          [lit "a.txt"%string; lit "README"%string; lit "forward"%string; lit "veronica"%string;
+           lit "keyboards"%string; lit "libs"%string; lit "x~y"%string] = true.
+Proof. vm_compute. reflexivity. Qed.
